@@ -38,6 +38,13 @@ type c02Case struct {
 	Before  []c02Ctx `json:"before,omitempty"`
 	Between []c02Ctx `json:"between,omitempty"`
 	Plain   []string `json:"plain,omitempty"`
+	// Layout of the groups around the entry under test:
+	//  "second-group": a first group (other action) holds a conditional entry for the same syscall whose condition does
+	//     not hold for the event, as its last entry; the entry under test is in the second group.
+	//  "default-action-first": the group of the entry under test has the policy's default action, and a second group
+	//     (other action) lists the syscall without conditions: relation holds => default action value, else the second
+	//     group's action.
+	Layout string `json:"layout,omitempty"`
 }
 
 type c02Ctx struct {
@@ -153,6 +160,25 @@ func checkC02(raw json.RawMessage) (ev.Result, error) {
 			g.Names = append(g.Names, n)
 		}
 	}
+	matchedRet, otherRet := uint32(c02Matched), uint32(c02Default)
+	switch c.Layout {
+	case "second-group":
+		// a condition on another argument that the event does not satisfy
+		oa := (c.Arg + 1) % 6
+		first := spec.Group{Action: oracle.Const("SECCOMP_RET_TRAP"), Names: []string{"getpid"},
+			Conds: []spec.CondEntry{{Name: "getuid", Conds: []spec.Cond{{Arg: 0, Op: "Equal", Val: 1}}}, {Name: c02Syscall, Conds: []spec.Cond{{Arg: oa, Op: "Equal", Val: c.Noise[oa] ^ 1}}}}}
+		if !c02Known(c.Arch, "getpid") || !c02Known(c.Arch, "getuid") {
+			first.Names, first.Conds = nil, first.Conds[1:]
+		}
+		p.Groups = append([]spec.Group{first}, p.Groups...)
+	case "default-action-first":
+		p.Groups[0].Action = c02Default
+		p.Groups = append(p.Groups, spec.Group{Action: oracle.Const("SECCOMP_RET_TRAP"), Names: []string{c02Syscall}})
+		matchedRet, otherRet = c02Default, oracle.Const("SECCOMP_RET_TRAP")
+	case "":
+	default:
+		return ev.Result{}, ev.Inconclusivef("unknown layout %q", c.Layout)
+	}
 	cp, cerr, pan := compilePolicy(&p)
 	if pan != nil {
 		return ev.Result{}, fmt.Errorf("Assemble panicked: %v", pan)
@@ -177,9 +203,9 @@ func checkC02(raw json.RawMessage) (ev.Result, error) {
 		}
 		holds = holds || h
 	}
-	want := uint32(c02Default)
+	want := otherRet
 	if holds {
-		want = c02Matched
+		want = matchedRet
 	}
 	w := e.Words(bo)
 	got, err := runRaw(cp, &w)
@@ -208,6 +234,9 @@ func checkC02(raw json.RawMessage) (ev.Result, error) {
 	}
 	if len(c.Alt) > 0 {
 		res.Classes = append(res.Classes, "alternative-entries-for-the-same-argument")
+	}
+	if c.Layout != "" {
+		res.Classes = append(res.Classes, "layout:"+c.Layout)
 	}
 	if len(c.Before) > 0 || len(c.Between) > 0 || len(c.Plain) > 0 {
 		res.Classes = append(res.Classes, "entry-among-entries-for-other-syscalls")
@@ -357,6 +386,12 @@ func drawC02(t *rapid.T) c02Case {
 		for i := 0; i < np; i++ {
 			c.Plain = append(c.Plain, c02OtherNames[rapid.IntRange(0, len(c02OtherNames)-1).Draw(t, "plainName")])
 		}
+	}
+	switch rapid.IntRange(0, 7).Draw(t, "layout") {
+	case 0:
+		c.Layout = "second-group"
+	case 1:
+		c.Layout = "default-action-first"
 	}
 	for k := range c.Noise {
 		switch rapid.IntRange(0, 2).Draw(t, "noiseClass") {
